@@ -56,6 +56,35 @@ def find_def(repo, cls, name):
     return None
 
 
+def bits_rule(ctx, P='C28-BITS'):
+    # ---------------------------------------------------------------- BITS
+    nb = 0
+    for fn in ctx.repo.rule_funcs():
+        if fn.mod.name != 'pony.orm.core': continue
+        stmts = list(walk_no_nested(fn.node))
+        carriers = {dotted(a.value) for a in stmts if isinstance(a, ast.Assign) and any(isinstance(t, ast.Attribute) and t.attr == '_wbits_' for t in a.targets)
+                    and isinstance(a.value, ast.Name)}
+        adds = []
+        for a in stmts:
+            if isinstance(a, ast.AugAssign) and isinstance(a.op, ast.BitOr) and (
+                    (isinstance(a.target, ast.Attribute) and a.target.attr == '_wbits_') or (isinstance(a.target, ast.Name) and a.target.id in carriers)):
+                adds.append((a, a.value))
+            elif isinstance(a, ast.Assign) and any(isinstance(t, ast.Attribute) and t.attr == '_wbits_' for t in a.targets) and isinstance(a.value, ast.BinOp) \
+                    and isinstance(a.value.op, ast.BitOr):
+                adds.append((a, a.value.right))
+        for a, e in adds:
+            nb += 1
+            srcs = [e]
+            if isinstance(e, ast.Name):
+                srcs = [x.value for x in stmts if isinstance(x, ast.Assign) and any(dotted(t) == e.id for t in x.targets)]
+            tabs = {y.attr for v in srcs for y in ast.walk(v) if isinstance(y, ast.Attribute) and y.attr.startswith('_bits') or isinstance(y, ast.Attribute) and y.attr.startswith('_all_bits')}
+            ok = bool(srcs) and tabs == {'_bits_'}
+            ctx.ob(P + '.write-bit-taken-from-the-full-bit-table', fn, a, ok,
+                   '' if ok else 'the bit added to _wbits_ here comes from %s: for a volatile attribute that table holds 0, so an in-place change of a volatile Json/array '
+                   'value does not mark the object modified and is never written' % (sorted(tabs) or 'an unrecognised source'), node=a, expected='obj._bits_[attr]')
+    ctx.floor(P, nb, 3, 'statements adding bits to _wbits_')
+
+
 def run(ctx):
     repo, cg = ctx.repo, ctx.cg
     M = 'pony.orm.ormtypes'
@@ -212,32 +241,7 @@ def run(ctx):
                    '' if ok else '%s converts a database value with `%s`, without the owner object: for Json/array attributes the session gets a plain container and in-place '
                    'changes made to it are never written' % (fn.qual, norm(c)), node=c, expected='converter.dbval2val(dbval, obj)')
     ctx.floor('C28-OWNERARG', nown, 2, 'dbval2val call sites in core.py')
-    # ---------------------------------------------------------------- BITS
-    nb = 0
-    for fn in ctx.repo.rule_funcs():
-        if fn.mod.name != 'pony.orm.core': continue
-        stmts = list(walk_no_nested(fn.node))
-        carriers = {dotted(a.value) for a in stmts if isinstance(a, ast.Assign) and any(isinstance(t, ast.Attribute) and t.attr == '_wbits_' for t in a.targets)
-                    and isinstance(a.value, ast.Name)}
-        adds = []
-        for a in stmts:
-            if isinstance(a, ast.AugAssign) and isinstance(a.op, ast.BitOr) and (
-                    (isinstance(a.target, ast.Attribute) and a.target.attr == '_wbits_') or (isinstance(a.target, ast.Name) and a.target.id in carriers)):
-                adds.append((a, a.value))
-            elif isinstance(a, ast.Assign) and any(isinstance(t, ast.Attribute) and t.attr == '_wbits_' for t in a.targets) and isinstance(a.value, ast.BinOp) \
-                    and isinstance(a.value.op, ast.BitOr):
-                adds.append((a, a.value.right))
-        for a, e in adds:
-            nb += 1
-            srcs = [e]
-            if isinstance(e, ast.Name):
-                srcs = [x.value for x in stmts if isinstance(x, ast.Assign) and any(dotted(t) == e.id for t in x.targets)]
-            tabs = {y.attr for v in srcs for y in ast.walk(v) if isinstance(y, ast.Attribute) and y.attr.startswith('_bits') or isinstance(y, ast.Attribute) and y.attr.startswith('_all_bits')}
-            ok = bool(srcs) and tabs == {'_bits_'}
-            ctx.ob('C28-BITS.write-bit-taken-from-the-full-bit-table', fn, a, ok,
-                   '' if ok else 'the bit added to _wbits_ here comes from %s: for a volatile attribute that table holds 0, so an in-place change of a volatile Json/array '
-                   'value does not mark the object modified and is never written' % (sorted(tabs) or 'an unrecognised source'), node=a, expected='obj._bits_[attr]')
-    ctx.floor('C28-BITS', nb, 3, 'statements adding bits to _wbits_')
+    bits_rule(ctx)
 
 
 
